@@ -1,6 +1,6 @@
 #!/bin/sh
 # usage: run.sh <demo.c> [rev]   builds the ASan tree of [rev] (default HEAD) unless /tmp/asan_tree/.rev matches, runs the demo
-D=$(dirname $0); REV=${2:-HEAD}; T=/tmp/asan_tree
+D=$(dirname $0); REV=$(git -C /repo rev-parse ${2:-HEAD}); T=/tmp/asan_tree
 if [ ! -f $T/.rev ] || [ "$(cat $T/.rev)" != "$REV" ]; then sh $D/build_asan.sh $REV || exit 2; echo $REV > $T/.rev; fi
 n=$(basename $1 .c)
 cc -fsanitize=address -g -w -o /tmp/$n $1 -I/verif/replay -I$T -I$T/core/config -I$T/core/include -I$T/core/osdep/include \
